@@ -59,6 +59,13 @@ CHECKS = {
         text="The specification's state holds the number of data points, parameters, fixed parameters and constraint measurements (1 per simple, n per n-parameter matrix constraint); TLC enumerates all orders of fixing, releasing and "
              "constraining; each history is executed on real fits and fit.ndf must equal the specification's integer; goodness of fit must equal cost minus saturated cost and chi2_probability the chi2 upper tail of the cost without its determinant term.",
         note="Trusted: TLC, harness/evaluator.py, scipy.stats.chi2.sf. Multi-fits are covered under C11's check (MultiFit.tla NdfFormula)."),
+    "C11": dict(
+        category="model_checking", design_ref="DESIGN.md 4.7, 5/C11",
+        technique="TLA+ spec MultiFit.tla (overlap patterns of parameter names, shared parameter nodes vs per-object minimizer copies, mirrored fix/release, constraint bookkeeping, block layout of shared sources with the fit-index -> data-index map) model-checked with TLC; histories replayed on real MultiFit objects; cost and fit result compared with the joint -2 log L / GLS solution assembled from the specification's block layout",
+        text="TLC checks Mirrored, SymmetricLayout, EverySourceOnItsDiagonal and FixedKeepValue over set/fix/release issued on the multi-fit or on members, constraints on either, shared sources on every subset, for six overlap patterns "
+             "(disjoint, fully shared, chain, non-adjacent sharing, mixed with a non-chi2 member, single member). Each history is executed on a real MultiFit: one value per name in the multi-fit and all members, ndf = the specification's integer, "
+             "cost = sum of member costs without shared sources and = the joint -2 log L with the shared matrix in exactly the blocks the specification lists, the joint covariance matrix itself, after do_fit the optimum = the joint GLS solution and every member reports sub-blocks of the multi-fit result.",
+        note="Trusted: TLC, harness/adapters/multifit.py (numpy GLS). Members are 3-point indexed fits with linear models plus one Poisson histogram member; sources absolute and uncorrelated between points. Known finding KF-C11-SHARED-MEMBER-CONSTRAINTS is reported as such."),
 }
 NOT_APPLICABLE = {
     "C16": "Pure real-valued special-function identity (chi2 CDF and its inverse): no state or transitions, and TLC has neither reals nor exp; "
